@@ -769,7 +769,7 @@ func rulePollEOF(c *Check, a *Analysis, rule string) {
 			return false
 		}
 		for _, name := range []string{"EOF", "ErrUnexpectedEOF"} {
-			edges, k := p.guardEdges(fn, isEOF(name))
+			edges, k := p.impliedEdges(fn, isEOF(name))
 			if k == 0 {
 				c.Ob(rule, sc.key(fn, "io."+name+" tested"), fn.Pos(), false, "the poll callback does not test the read error against io."+name+": a closed connection is never torn down")
 				continue
@@ -803,7 +803,23 @@ func ruleSharedLocalMap(c *Check, a *Analysis, rule string) {
 	sc := siteCounter{}
 	n := 0
 	for _, fn := range withClosures(lis) {
-		eachInstr(fn, func(in ssa.Instruction) {
+		if p.isPlainHelper(fn) {
+			continue // reached, with its arguments resolved, through its callers
+		}
+		eachInstrCtx(fn, func(in, at ssa.Instruction, res func(ssa.Value) ssa.Value) {
+			// an operation on a map-typed parameter of a helper that is the shared map at this call
+			if prmOp, mapVal := mapOperand(in); prmOp != nil {
+				if _, isPrm := mapVal.(*ssa.Parameter); isPrm {
+					if u2, ok := res(mapVal).(*ssa.UnOp); ok && u2.Op == token.MUL {
+						if cell := p.localCell(u2.X); cell != nil && cell.Parent() == lis {
+							n++
+							held := ls.Held(in, "Server.mutex")
+							c.Ob(rule, sc.key(in.Parent(), "shared map "+cell.Comment+" under Server.mutex"), p.InstrPos(in), held, ifs(!held, "the map variable "+cell.Comment+" of Listen is shared by the accept goroutines, the poll callbacks and the deferred clean-up, and is touched here without Server.mutex: concurrent map access is a fatal error"))
+						}
+					}
+				}
+				return
+			}
 			u, ok := in.(*ssa.UnOp)
 			if !ok || u.Op != token.MUL {
 				return
@@ -846,4 +862,27 @@ func ruleSharedLocalMap(c *Check, a *Analysis, rule string) {
 	if n < 4 {
 		c.Undecided(rule, fmt.Sprintf("expected at least 4 accesses to Listen's shared codec map, found %d", n))
 	}
+}
+
+// mapOperand: in operates on a map (update, lookup, range, delete, len); returns in and the map value.
+func mapOperand(in ssa.Instruction) (ssa.Instruction, ssa.Value) {
+	switch x := in.(type) {
+	case *ssa.MapUpdate:
+		return in, x.Map
+	case *ssa.Lookup:
+		if _, isMap := x.X.Type().Underlying().(*types.Map); isMap {
+			return in, x.X
+		}
+	case *ssa.Range:
+		if _, isMap := x.X.Type().Underlying().(*types.Map); isMap {
+			return in, x.X
+		}
+	case *ssa.Call:
+		if n := calleeName(x); (n == "builtin delete" || n == "builtin len") && len(x.Call.Args) > 0 {
+			if _, isMap := x.Call.Args[0].Type().Underlying().(*types.Map); isMap {
+				return in, x.Call.Args[0]
+			}
+		}
+	}
+	return nil, nil
 }
